@@ -21,6 +21,6 @@ Definition ranswer (a : answer) : rdr :=
 
 Definition rresult (r : result) : rdr :=
   match r with
-  | RRun l n => rpair (rlist (rpair routcome (rlist rbool))) rnat (l, n)
+  | RRun l n => rpair (rlist (rtriple routcome (rlist rbool) (rlist (rlist rnat)))) rnat (l, n)
   | RMatch h t g ok iok => rpair (rpair ranswer (ropt rQ)) (rtriple rpairs rbool rbool) ((h, t), (g, ok, iok))
   end.
